@@ -168,6 +168,14 @@ def require_actions(res, names, what):
         raise ModelFailure("%s: actions never taken in the model: %s" % (what, missing))
 
 
+def parallel(*thunks, max_workers=None):
+    """Run independent steps (TLC runs, harness builds) concurrently; results in order; first exception re-raised."""
+    from concurrent.futures import ThreadPoolExecutor
+    with ThreadPoolExecutor(max_workers=max_workers or len(thunks)) as ex:
+        futs = [ex.submit(t) for t in thunks]
+        return [f.result() for f in futs]
+
+
 # --------------------------------------------------------------------------- build cache
 
 _tree_hash = None
